@@ -1920,3 +1920,39 @@ func init() {
 		return p
 	}
 }
+
+func init() {
+	// "c11reacq": a reconnect notification reaches the leader; while its verification is on its way
+	// (100 ms, then two reads, slow here) the term that was leading ends for another reason - the
+	// record is removed and the application's ValidateTokenOrDemote notices - and the same instance
+	// wins the vacancy again at once. The verification then reads the record of the NEW term: own
+	// identity, current token - the instance keeps leading.
+	families["c11reacq"] = func(r *Rng) *Plan {
+		p := &Plan{Judge: []string{"C11", "C08", "C19", "C05"}}
+		p.H = Pick(r, []time.Duration{200 * ms, 500 * ms, 1 * sec, 2 * sec})
+		p.TTL = Pick(r, []time.Duration{3 * p.H, 5 * p.H, 10 * p.H})
+		p.Insts = mkInsts(r, 1, 1)
+		c := &p.Insts[0]
+		c.Monitor = true
+		c.Grace = Pick(r, []time.Duration{0, 2 * p.H, 10 * p.H})
+		c.V = Pick(r, []time.Duration{0, 0, 3 * p.H})
+		p.Store = healthyStore(r, Pick(r, []time.Duration{2 * ms, 10 * ms}))
+		p.Store.WatchDelay = [2]Dur{0, 2 * ms}
+		p.Actions = append(p.Actions, Action{At: 0, Kind: AStart, Inst: 0})
+		t := r.Dur(2*p.H, 6*p.H)
+		for k := 0; k < 1+r.Intn(3); k++ {
+			if r.Bool(0.5) {
+				p.Actions = append(p.Actions, Action{At: t - r.Dur(10*ms, 2*sec), Kind: ADisconnect, Inst: 0})
+			}
+			p.Actions = append(p.Actions, Action{At: t, Kind: AReconnect, Inst: 0})
+			td := t + r.Dur(0, 30*ms)
+			p.Actions = append(p.Actions, Action{At: td, Kind: Pick(r, []string{AOutDelete, AExpire}), Key: "g1"})
+			p.Actions = append(p.Actions, Action{At: td + r.Dur(0, 10*ms), Kind: AValidateOD, Inst: 0})
+			t += r.Dur(3*sec, 6*sec) + 2*p.H
+		}
+		p.Until = t + graceOf(p, *c) + 2*sec
+		p.Tail = 0
+		p.Sched = SchedCfg{YieldProb: Pick(r, []float64{0, 0.3}), StallMax: 0}
+		return p
+	}
+}
